@@ -38,6 +38,7 @@ func Run(p *load.Program, tier string) *oblig.Set {
 		s.Unk("ANCHOR", "builtin.Load", "-", "not found")
 	}
 	loopRule(p, s)
+	boundaryRule(p, s)
 	readerRule(p, s)
 	segmentsRule(p, s)
 	recoverRule(p, s)
@@ -392,6 +393,7 @@ func loopRule(p *load.Program, s *oblig.Set) {
 		lineEmpty   bool
 		accumulated bool // LINE1 was appended to the pending input
 		scanned     bool // the driver looked at the bytes of the line itself (no strings.Count)
+		condV       []absint.CondRec
 	}
 	var all []res
 	o := &absint.Oracle{}
@@ -480,6 +482,7 @@ func loopRule(p *load.Program, s *oblig.Set) {
 		args := []absint.Val{absint.NewVar("READER", fn.Params[0].Type()), absint.NewVar("PARSER", fn.Params[1].Type()), absint.NewVar("VM", fn.Params[2].Type()), absint.NewVar("DOOUT", types.Typ[types.Bool])}
 		_, end := in.Run(fn, args)
 		r.conds = append([]string(nil), in.CondLog...)
+		r.condV = append([]absint.CondRec(nil), in.CondV...)
 		if end != nil {
 			r.end = end.Error()
 		} else {
@@ -522,9 +525,17 @@ func loopRule(p *load.Program, s *oblig.Set) {
 		if r.lineEmpty {
 			nonEmpty = false
 		}
-		for _, c := range r.conds {
-			if strings.Contains(c, "count(") && (strings.HasPrefix(c, "==(") && strings.HasSuffix(c, ":= false") || strings.HasPrefix(c, "!=(") && strings.HasSuffix(c, ":= true")) {
+		// "complete" however the balance tests are spelt (== 0, <= 0, a helper):
+		// the decisions of the path must be what they are for a line in which
+		// every counted character occurs zero times
+		for _, c := range r.condV {
+			if !strings.Contains(absint.Key(c.V), "count(") {
+				continue
+			}
+			if v, ok := truthAtZero(c.V); ok && v != c.B {
 				complete = false
+			} else if !ok {
+				complete = false // not a comparison the rule can evaluate: the path is no witness
 			}
 		}
 		if !complete || !nonEmpty {
@@ -902,4 +913,63 @@ func stripsBreak(line string, conds map[string]bool) bool {
 		return endsNL
 	}
 	return false
+}
+
+// truthAtZero evaluates a comparison whose only unknowns are counts of
+// characters in a line for a line in which none of them occurs.
+func truthAtZero(v absint.Val) (bool, bool) {
+	s, ok := v.(*absint.Sym)
+	if !ok || len(s.Args) != 2 {
+		return false, false
+	}
+	a, ok1 := intAtZero(s.Args[0])
+	b, ok2 := intAtZero(s.Args[1])
+	if !ok1 || !ok2 {
+		return false, false
+	}
+	switch s.Op {
+	case "==":
+		return a == b, true
+	case "!=":
+		return a != b, true
+	case "<":
+		return a < b, true
+	case "<=":
+		return a <= b, true
+	case ">":
+		return a > b, true
+	case ">=":
+		return a >= b, true
+	}
+	return false, false
+}
+
+func intAtZero(v absint.Val) (int64, bool) {
+	if c, ok := absint.ConstInt(v); ok {
+		return c, true
+	}
+	s, ok := v.(*absint.Sym)
+	if !ok {
+		return 0, false
+	}
+	if s.Op == "count" {
+		return 0, true
+	}
+	if s.Op == "%" && len(s.Args) == 2 {
+		a, ok1 := intAtZero(s.Args[0])
+		b, ok2 := intAtZero(s.Args[1])
+		if ok1 && ok2 && b != 0 {
+			return a % b, true
+		}
+		return 0, false
+	}
+	if l, ok := absint.LinOf(v); ok {
+		for k := range l.T {
+			if !strings.HasPrefix(k, "count(") {
+				return 0, false
+			}
+		}
+		return l.C, true
+	}
+	return 0, false
 }
